@@ -119,7 +119,7 @@ def generate(rng, tier, index):
         kinds = PALETTE if c >= 1 else ["none"]
         for kind in kinds:
             hit = sorted(rng.sample(range(m), c))
-            cases.append({"count": c, "kind": kind, "rows": {str(i): v for i, v in _corrupt(rng, honest, hit, kind, scale).items()}})
+            cases.append({"count": c, "kind": kind, "form": rng.choice(["plain", "plain", "plain", "noncontig", "requires_grad"]), "rows": {str(i): v for i, v in _corrupt(rng, honest, hit, kind, scale).items()}})
     # F3: too few rows
     if fam == "TrimmedMean":
         few = [{"agg": {"kind": "TrimmedMean", "b": bb}, "m": mm} for bb in (1, 2, 4) for mm in (1, 2 * bb) if mm >= 1]
@@ -141,9 +141,11 @@ def execute(scn):
         hit = sorted(int(i) for i in case["rows"].keys())
         for i in hit:
             rows[i] = list(case["rows"][str(i)])
-        Jt = torch.tensor(rows, dtype=dtype)
-        J = Jt.to(torch.float64).numpy()
-        before = Jt.clone()
+        from ..aggs import matrix_form
+
+        Jt = matrix_form(torch.tensor(rows, dtype=dtype), case.get("form", "plain"))
+        J = Jt.detach().to(torch.float64).numpy()
+        before = Jt.detach().clone()
         try:
             out = A(Jt)
         except Exception as e:  # noqa: BLE001
@@ -157,7 +159,7 @@ def execute(scn):
         got = out.detach().to(torch.float64).numpy()
         events.append([ci, digest(out.detach().numpy().tobytes())])
         cases_sig.append(digest([scn["agg"], J.tobytes()]))
-        if not torch.equal(before, Jt):
+        if not torch.equal(before, Jt.detach()):
             viols.append({"clause": "input_modified", "step": ci, "details": {}, "key": {}})
         if got.shape != (n,) or not np.all(np.isfinite(got)):
             viols.append({"clause": "bad_shape_or_nonfinite", "step": ci, "details": {"shape": list(got.shape)}, "key": {}})
